@@ -15,6 +15,7 @@ from exabgp.bgp.message.update.nlri.evpn.nlri import EVPN
 from exabgp.bgp.message.update.nlri.qualifier import ESI, EthernetTag, Labels, RouteDistinguisher
 from exabgp.bgp.message.update.nlri.qualifier import MAC as MACQUAL
 from exabgp.bgp.message.update.nlri.qualifier.path import PathInfo
+from exabgp.protocol.family import Family
 from exabgp.protocol.ip import IP
 from exabgp.util.types import Buffer
 
@@ -146,11 +147,13 @@ class MAC(EVPN):
         return Labels.unpack_labels(self._packed[label_start : label_start + 3])
 
     def index(self) -> bytes:
-        # Note: Per RFC 7432 Section 7.2, the route key for Type 2 should only include
-        # etag, mac, and ip (ESI and labels are attributes, not key). However, this
-        # implementation uses full packed bytes for index. The __eq__ method correctly
-        # excludes ESI and label for semantic equality comparisons.
-        return EVPN.index(self)
+        # RFC 7432 section 7.2: the ESI and the labels are attributes of the route, not part of its
+        # key.  __eq__ and __hash__ already leave them out; the index has to as well, or two routes
+        # which compare equal sit side by side in the RIB and a MAC move never replaces the old entry.
+        # Wire offsets: type+length 0-2, RD 2-10, ESI 10-20, ETag 20-24, MAClen 24, MAC 25-31, IPlen 31, IP 32+
+        iplen_bytes = self._packed[31] // 8 if self._packed[31] else 0
+        key = bytes(self._packed[0:1]) + bytes(self._packed[2:10]) + bytes(self._packed[20:32 + iplen_bytes])
+        return bytes(Family.index(self)) + key
 
     def __eq__(self, other: object) -> bool:
         return (
